@@ -226,7 +226,7 @@ m("c14-maximally-orient-in-place", ["C14"], U, "    P = P.copy()\n    # Repeated
 m("c14-imec-discards-from-caller-set", ["C14"], U, "    if check_chain and is_chain_graph(A):\n        return chain_graph_IMEC(A, I)", "    I -= set(i for i in list(I) if len(adj(i, A)) == 0)\n    if check_chain and is_chain_graph(A):\n        return chain_graph_IMEC(A, I)", note="isolated targets are dropped from the caller's own set")
 m("c14-topological-ordering-in-place", ["C14"], U, "    A = A.copy()\n    sinks = ", "    sinks = ", note="Kahn's algorithm consumes the caller's matrix")
 m("c14-all-dags-returns-input", ["C14"], U, "        return np.array([pdag.copy()])", "        return pdag[None, :, :]", note="result is a view of the argument when there is nothing to orient")
-m("c14-conditional-caches-on-self", ["C14"], ND, "        cov_y = utils.matrix_block(self.covariance, Y, Y)", "        self._last = (Y, X)\n        cov_y = utils.matrix_block(self.covariance, Y, Y)", note="a query leaves state behind on the model")
+m("c14-conditional-caches-on-self", ["C14"], ND, "        cov_y = utils.matrix_block(self.covariance, Y, Y)", "        self.last_query = (Y, X)\n        cov_y = utils.matrix_block(self.covariance, Y, Y)", note="a query leaves a public attribute behind on the model (a private one would not contradict the property, which speaks of public attributes)")
 m("c14-lganm-shift-accumulates", ["C14"], L, "        variances = self.variances.astype(float)\n        means = self.means.astype(float)", "        variances = self.variances.astype(float)\n        means = self.means = self.means.astype(float)", note="shift interventions are then added to the model's own means")
 
 # ---- later additions
